@@ -186,7 +186,12 @@ def build_get_byte(u):
          "  assert(chunks_bytes(d)[byte_index as int] == chunks_bytes(d).subrange(d[c].1 as int, d[c].1 + clen(d, c))[byte_index - d[c].1]);\n"
          "}", regex=True, nth=1)
     g.body_start("get_byte", "canary.Rope::get_byte", "canary", "proof { assert(false); }")
-    u.contracted += [("Rope::get_byte", "src/rope.rs")]
+    # byte(): the panicking accessor - in its documented domain (index in bounds) the `expect` never fires
+    b = u.method("src/rope.rs", IMPL, "byte")
+    b.sig("byte", [("Rope::byte.requires", "contract", "requires self.wf(), byte_index < self.bytes().len()"),
+                   ("Rope::byte.ensures", "contract", "ensures r == self.bytes()[byte_index as int]")], ret="r")
+    b.body_start("byte", "canary.Rope::byte", "canary", "proof { assert(false); }")
+    u.contracted += [("Rope::get_byte", "src/rope.rs"), ("Rope::byte", "src/rope.rs")]
 
 
 def g2_universal_range(it, fn):
